@@ -25,7 +25,7 @@ RULE = ("cases: (mean, covariance, Y, X, x, index form).  distinct = distinct ca
         ' Also: the same Gaussian in units 1e-12..1e8, weak dependence, far-out conditioning values, badly scaled variables (gross-error regime), 12-24 variables with int8/uint8/int16/int32 index arrays, covariances of integer-weight SEMs with exact structural zeros; each distribution object answers all its queries (same sets in several orders).')
 ASSUMPTIONS = ["conditioning block non-singular (the property's scope); tolerance scaled by its 2-norm condition number"]
 EXHAUSTIVE = {"quick": False, "thorough": False}
-SOFT_LIMIT = {"quick": 240, "thorough": 1500}
+SOFT_LIMIT = {"quick": 1200, "thorough": 5400}      # generous wall-clock watchdogs (a loaded machine must not cut a workload short); normal run times are in the evidence
 REQUIRED_FUNCS = ["sempler/normal_distribution.py:NormalDistribution.conditional", "sempler/normal_distribution.py:NormalDistribution.marginal",
                   "sempler/normal_distribution.py:NormalDistribution.__init__"]
 REQUIRED_COUNTERS = {"quick": {"judged:conditional": 10000, "judged:marginal": 3000, "error:overlap": 300, "error:size-mismatch": 300,
